@@ -1,6 +1,6 @@
 use anyhow::{anyhow, bail, Context, Result};
 use crate::coord::{MavenCoord, Types};
-use crate::maven_pom::{Dependencies, DependencyManagement, MavenPom};
+use crate::maven_pom::{Dependency, DependencyManagement, MavenPom};
 use crate::{Downloader, DependencyScope};
 use crate::resolver::{Resolver, try_get_pom_for};
 
@@ -11,6 +11,9 @@ pub(crate) struct MavenPomDone {
 
 	pub(crate) dependency_management: Vec<DependencyDone>,
 	pub(crate) dependencies: Vec<DependencyDone>,
+
+	/// The `<dependency>` elements as declared by this pom (first) and by its parents, before any dependency management is applied.
+	declared_dependencies: Vec<Dependency<DependencyScope>>,
 }
 
 #[derive(Debug, Clone)]
@@ -53,8 +56,13 @@ pub(crate) async fn get_merged_pom<'a>(downloader: &(impl Downloader + Sync), re
 		parent = Some(merged);
 	}
 
-	let merged = merge_parent(downloader, resolvers, parent, pom).await
+	let mut merged = merge_parent(downloader, resolvers, parent, pom).await
 		.with_context(|| anyhow!("merging parent and child for child from {resolver:?} and {coord}"))?;
+
+	// the dependency management is applied to the finished effective pom, so that the management of a child
+	// also reaches the dependencies the child inherits from its parents
+	merged.dependencies = make_dependencies(&merged.dependency_management, &merged.declared_dependencies)
+		.with_context(|| anyhow!("while creating `dependencies` for {coord}"))?;
 
 	Ok((resolver, merged))
 }
@@ -83,12 +91,11 @@ async fn merge_parent(downloader: &(impl Downloader + Sync), resolvers: &[Resolv
 		).await
 			.with_context(|| anyhow!("while creating `dependency_management` for {coord} (with a real parent)"))?;
 
-		let dependencies = make_dependencies(
-			&dependency_management, child.dependencies, Some(parent.dependencies)
-		)
-			.with_context(|| anyhow!("while creating `dependencies` for {coord} (with a real parent)"))?;
+		let declared_dependencies = child.dependencies.map_or_else(Vec::new, |x| x.dependency).into_iter()
+			.chain(parent.declared_dependencies)
+			.collect();
 
-		Ok(MavenPomDone { coord, dependency_management, dependencies })
+		Ok(MavenPomDone { coord, dependency_management, dependencies: Vec::new(), declared_dependencies })
 	} else {
 		// inherit from super pom from https://maven.apache.org/ref/3.9.8/maven-model-builder/super-pom.html
 
@@ -106,14 +113,9 @@ async fn merge_parent(downloader: &(impl Downloader + Sync), resolvers: &[Resolv
 		).await
 			.with_context(|| anyhow!("while creating `dependency_management` for {coord} (parent is super pom)"))?;
 
-		let dependencies = make_dependencies(
-			&dependency_management,
-			child.dependencies,
-			None
-		)
-			.with_context(|| anyhow!("while creating `dependencies` for {coord} (parent is super pom)"))?;
+		let declared_dependencies = child.dependencies.map_or_else(Vec::new, |x| x.dependency);
 
-		Ok(MavenPomDone { coord, dependency_management, dependencies })
+		Ok(MavenPomDone { coord, dependency_management, dependencies: Vec::new(), declared_dependencies })
 	}
 }
 
@@ -169,12 +171,9 @@ async fn make_dependency_management(downloader: &(impl Downloader + Sync), resol
 
 fn make_dependencies(
 	dependency_management: &[DependencyDone],
-	child_dependencies: Option<Dependencies<DependencyScope>>,
-	parent_dependencies: Option<Vec<DependencyDone>>,
+	declared_dependencies: &[Dependency<DependencyScope>],
 ) -> Result<Vec<DependencyDone>> {
-	let parent_dependencies = parent_dependencies.unwrap_or_default();
-
-	child_dependencies.map_or_else(Vec::new, |x| x.dependency).into_iter()
+	declared_dependencies.iter().cloned()
 		.map(|x| {
 			let group = x.group_id;
 			let artifact = x.artifact_id;
@@ -206,8 +205,6 @@ fn make_dependencies(
 				}
 			}
 		})
-		// TODO: also properly merge with parent? (appending the parent deps directly is wrong)
-		.chain(parent_dependencies.into_iter().map(Ok))
 		.collect::<Result<_>>()
 }
 
